@@ -21,7 +21,7 @@ def entryName : Nat → String
 
 def digest (s : St) : String :=
   let al := ",".intercalate (s.mem.allow.map entryName)
-  s!"al=[{al}] inv={s.mem.invoices} hwm={s.mem.hwm} chans={s.mem.stubs.length + 1}"
+  s!"al=[{al}] inv={s.mem.invoices} iss={s.mem.issued.length} hwm={s.mem.hwm} chans={s.mem.stubs.length + 1}"
 
 def kind? : String → Option (List (Option Nat))
   | "g" => some [some 1] | "g2" => some [some 2] | "x" => some [some 3] | "b" => some [none]
@@ -39,6 +39,7 @@ def parse (toks : List String) : Option Op :=
   | ["ksdup", a] => do some (.ks (← nat? a) true)
   | ["newch", d] => do some (.newch (← nat? d))
   | ["forget", w] => do some (.forget (← nat? w))
+  | ["sinv", h, a] => do some (.sinv (← nat? h) (← nat? a))
   | ["restart"] => some .restart
   | ["hb"] => some .hb
   | ["blk+", g] => some (.blk (g == "g") 1)
